@@ -24,11 +24,11 @@ Ev == Traces[tid].ev[l]
 Prev == IF l = 1 THEN Traces[tid].init ELSE Traces[tid].ev[l - 1]
 StepAction(e) ==
   CASE e.op = "add" -> Add(e.r, e.sym, e.scale, e.pfx)
-    [] e.op = "modify" -> Modify(e.r, e.sym, e.scale)
+    [] e.op = "modify" -> Modify(e.r, e.sym, e.scale, e.via)
     [] e.op = "remove" -> Remove(e.r, e.sym)
     [] e.op = "contains" -> Contains(e.r, e.sym)
     [] e.op = "unit" -> Construct(e.r, e.str)
-    [] e.op = "define" -> DefineUnit(e.r, e.scale, e.pfx)
+    [] e.op = "define" -> DefineUnit(e.r, e.scale, e.pfx, e.via)
     [] e.op = "handle" -> ShallowHandle(e.r, e.how)
     [] e.op = "picklereg" -> PickleReg(e.r, e.how, e.str)
     [] e.op = "inbase" -> InBase(e.r, e.str, e.sys, e.str2)
@@ -39,7 +39,7 @@ StepAction(e) ==
     [] e.op = "deepcopy" -> DeepCopyReg(e.r)
     [] e.op = "unpickle" -> Unpickle(e.r, e.str)
     [] e.op = "unitcopy" -> UnitCopy(e.r, e.str, e.deep)
-    [] e.op = "usys" -> MkUnitSystem(e.r, e.sym)
+    [] e.op = "usys" -> MkUnitSystem(e.r, e.sym, e.obj)
     [] e.op = "addsymbols" -> AddSymbols(e.r)
     [] e.op = "addconstants" -> AddConstants(e.r)
     [] e.op = "rebind" -> Rebind(e.r, e.r2, e.str, e.bypass)
@@ -102,6 +102,8 @@ Detail(e) == CASE e.op = "binop" -> e.fn
                [] e.op \in {"convert", "handle", "picklereg"} -> e.how
                [] e.op = "inbase" -> e.sys
                [] e.op \in {"unitcopy"} -> IF e.deep THEN "deep" ELSE "shallow"
+               [] e.op \in {"modify", "define"} -> IF e.via = "num" THEN "" ELSE e.via     \* value class of the argument
+               [] e.op = "usys" -> IF e.obj THEN "unit-object" ELSE ""
                [] OTHER -> ""
 PReport(e) ==
   /\ \A r \in Victims(e) : Fail(e, "Frame", IF r = 0 THEN "default" ELSE proute[r], Detail(e))
